@@ -77,17 +77,47 @@ def ob_assemble_index(kind, canary=False):
     return Verdict(DISCHARGED, backend="extracted function on a recording receiver", sub=4)
 
 
+def ob_assemble_scatter(kind):
+    """X: Form.Assemble == dense scatter-add of Integrate_e's element arrays, on non-symmetric forms"""
+    r = _replay_assemble(kind)
+    if r.get("confirmed"):
+        raise Refuted(f"{'BiLinearForm' if kind == 'bilinear' else 'LinearForm'}.Assemble is not the scatter-add of the element arrays: {r}", signature=f"assemble:{kind}:scatter", replay=r)
+    return Verdict(DISCHARGED, backend="native forms on two-element patches", detail=str(r.get("cases"))[:300], sub=2)
+
+
 def _replay_assemble(kind):
+    """native: Form.Assemble against the dense scatter-add K[a[e,i], a[e,j]] += K_e[e,i,j] of Integrate_e's output (non-symmetric convection form, vector shear form)"""
     try:
         from EasyFEA.FEM import Field, BiLinearForm, LinearForm
-        mesh = patches.two_element_mesh("TRI3")
-        fld = Field(mesh.groupElem, 1)
-        if kind == "bilinear":
-            form = BiLinearForm(lambda u, v: u.grad.dot(v.grad))
-        else:
-            form = LinearForm(lambda v: 1.0 * v)
-        A = form.Assemble(fld)
-        return dict(confirmed=False, shape=list(A.shape))
+        out = dict(confirmed=False, cases=[])
+        for et, dof_n in (("TRI3", 1), ("QUAD4", 2)):
+            mesh = patches.two_element_mesh(et)
+            grp = mesh.groupElem
+            fld = Field(grp, dof_n)
+            if kind == "bilinear":
+                bvec, Wc = np.array([1.0, -0.5]), np.array([[0.3, 1.1], [-0.7, 0.2]])
+                form = BiLinearForm((lambda u, v: (u.grad.dot(bvec)) * v) if dof_n == 1 else (lambda u, v: (u.grad @ bvec).dot(v) + (Wc @ u).dot(v)))
+            else:
+                fvec = np.array([2.0, 3.0])
+                form = LinearForm((lambda v: 2.0 * v) if dof_n == 1 else (lambda v: v.dot(fvec)))
+            A = form.Assemble(fld)
+            Ke = np.asarray(form.Integrate_e(field=fld))
+            asm = np.asarray(grp.Get_assembly_e(dof_n))
+            Ndof = grp.Ncoords * dof_n
+            ref = np.zeros((Ndof, Ndof if kind == "bilinear" else 1))
+            for e in range(grp.Ne):
+                for i in range(asm.shape[1]):
+                    if kind == "bilinear":
+                        for j in range(asm.shape[1]):
+                            ref[asm[e, i], asm[e, j]] += Ke[e, i, j]
+                    else:
+                        ref[asm[e, i], 0] += Ke[e].ravel()[i]
+            err = float(np.abs(A.toarray() - ref).max())
+            asym = float(np.abs(ref - ref.T).max()) if kind == "bilinear" else None
+            out["cases"].append(dict(elem=et, dof_n=dof_n, max_abs_difference=err, asymmetry_of_reference=asym))
+            if err > 1e-12 * max(1.0, float(np.abs(ref).max())):
+                out["confirmed"] = True
+        return out
     except Exception as e:
         return dict(confirmed=True, raised=f"{type(e).__name__}: {e}"[:300])
 
@@ -657,6 +687,9 @@ def build(tier, seed):
     obs.append(Ob("C13.evaluate.exception", ob_evaluate_exception, (), "E", (f"{FD}::Field.Evaluate_e",), clause="Evaluate_e restores the field's mode on exceptional exits of the user function too"))
     obs.append(Ob("C13.evaluate.sequence", ob_evaluate_sequence, ("QUAD4",), "X", (f"{FD}::Field.Evaluate_e", f"{FP}::BiLinearForm.Integrate_e"), bound="one 5-call sequence on one field",
                   clause="post-processing a field does not change what forms integrate afterwards", timeout=120))
+    for kind in ("bilinear", "linear"):
+        obs.append(Ob(f"C13.assemble.scatter.{kind}", ob_assemble_scatter, (kind,), "X", (f"{FP}::{'BiLinearForm' if kind == 'bilinear' else 'LinearForm'}.Assemble",),
+                      bound="TRI3 scalar convection form and QUAD4 vector shear form on two-element patches", clause="Assemble(field) == sum_e scatter(Integrate_e) with K_e[e,i,j] at (a[e,i], a[e,j])"))
     obs.append(Ob("canary.assemble.index", ob_assemble_index, ("bilinear", True), "P", expect=REFUTED))
     functions = {q: extract.get(FP, q).describe() for q in ("BiLinearForm.Integrate_e", "BiLinearForm.Assemble", "LinearForm.Integrate_e", "LinearForm.Assemble")}
     functions["Field.__call__"] = extract.get(FD, "Field.__call__").describe()
